@@ -61,6 +61,9 @@ DevStaleAtom == {"StaleAtomTokenCache"}
 DevParentIdx == {"EndpointsViaParentIndex"}
 DevMemo == {"ReaderMemoFromHistory"}
 DevNegZero == {"NegativeZeroChargeToken"}
+DevRepeat == {"RepeatedPairReadsSingle"}
+PoolOne == {A("C", "Regular", "Unknown", "C1", 1, 2)}
+BondsP == {"Single", "Double", "Aromatic", "Amide", "Dummy", "Unknown", "NotConnected", "Quadruple"}
 EditB == {"Double", "Aromatic"}
 NoPhase == {}
 AliasTwo == {"promol", "dropped"}     \* model checking: "struct" behaves like "promol", "view" changes no bookkeeping
